@@ -371,13 +371,17 @@ HANDLERS.update({
 # ------------------------------------------------------------------------------------------------
 # C16: deterministic and identical through every route
 # ------------------------------------------------------------------------------------------------
-C16_RULE = ("accepted model grammars (profiles types/memo/mixed/fields/hooks, up to 9 rules, biased to multi-type fields and several cache entries), "
+C16_RULE = ("accepted model grammars (profiles types/memo/mixed/fields/hooks, up to 9 rules, biased to multi-type fields and several cache entries) plus every "
+            "grammar file of the repository the generator accepts (grammar.ebnf included), "
             "derive sets [Debug,Clone], [+PartialEq,Eq], [Clone], []; per grammar: library route twice in one process and in K fresh processes (fresh hash "
             "seeds) byte-identical; CLI binary built from the tree (fresh process, -d per derive): code after the header identical to the library's and CRC "
-            "header line identical; build-script route (Compile::file.destination.prefix.derives.run in a fresh process) = header + extra // header lines + "
-            "blank + prefix + newline + the same code bytes; header a pure function of the text; macro route: batch of grammar pairs where one module is "
+            "header line identical, the same for the CLI built with --release (no debug assertions); build-script route (Compile::file.destination.prefix.derives.run in a fresh process) = header + extra // header lines + "
+            "blank + prefix + newline + the same code bytes; header a pure function of the text; compile histories (stateful): generated sequences of compile calls in ONE process over accepted "
+            "texts and variants of them that the generator rejects half-way through a rule (non-ASCII case-insensitive literal or named field in a "
+            "lookahead appended to a rule with a multi-alternative choice) - every accepted text must give exactly the code a fresh process gave, "
+            "whatever was compiled (or rejected) before; macro route: batch of grammar pairs where one module is "
             "peginate!(text) and the other the library output, the same model-derived glue (exact type assertions + entry points) must compile against "
-            "both and both must return equal results on generated inputs. Non-trivial = grammar has a multi-type field or >= 2 cache entries (routes) / "
+            "both and both must return equal results on generated inputs. Non-trivial = grammar has a multi-type field or >= 2 cache entries (routes) / history with an accepted text compiled after a rejected one / "
             "non-trivial input (macro pairs); distinct by grammar text / (pair, rule, input).")
 
 
@@ -409,7 +413,7 @@ def run_c16(prop, tier, seed):
     d = os.path.join(ws.WORK, "c16tmp")
     shutil.rmtree(d, ignore_errors=True)
     os.makedirs(d)
-    subprocess.run([front, "c16-gen", "--seed", str(seed), "--cases", str(n), "--dir", d], check=True)
+    subprocess.run([front, "c16-gen", "--seed", str(seed), "--cases", str(n), "--dir", d, "--repo", ws.REPO], check=True)
     with open(os.path.join(d, "index.json")) as f:
         index = json.load(f)
     violations = []
@@ -447,6 +451,9 @@ def run_c16(prop, tier, seed):
                 viol(g, "library", "generated code differs between fresh processes", outs[0].decode()[:300], outs[i].decode()[:300])
             cls("library_fresh_processes")
         lib_code = outs[0].decode() if outs else None
+        if len(outs) == K and all(o == outs[0] for o in outs):
+            with open(g["file"] + ".code", "wb") as f:
+                f.write(outs[0])
         with open(g["file"]) as f:
             text = f.read()
         # CLI route (cannot express the empty derive set)
@@ -520,6 +527,24 @@ def run_c16(prop, tier, seed):
             # CRC-32 collisions are out of reach; equal CRC for different text would be a header that ignores the text
             viol(g, "header", "different grammar texts share a CRC header line", "different", crc)
         crcs[crc] = text
+    # compile histories in one process (accepted texts and texts rejected half-way through a rule, in generated orders):
+    # every accepted text must give the code a fresh process gave
+    hist_out = os.path.join(d, "history.json")
+    hp = subprocess.run([front, "c16-history", "--seed", str(seed), "--cases", str(400 if tier == "quick" else 6000), "--dir", d, "--out", hist_out],
+                        stdout=subprocess.PIPE, stderr=subprocess.PIPE, timeout=3000)
+    hist_infra = None
+    try:
+        with open(hist_out) as f:
+            hist = json.load(f)
+        evaluations += hist["evaluations"]
+        for c, k in hist["classes"].items():
+            classes[c] = classes.get(c, 0) + k
+        violations.extend(hist["violations"])
+        hist_nontrivial = hist["distinct_nontrivial"]
+        samples.extend(hist["samples"][:2])
+    except Exception as e:
+        hist_infra = "compile-history process failed: rc=%s %s" % (hp.returncode, hp.stderr.decode()[-300:])
+        hist_nontrivial = 0
     shutil.rmtree(d, ignore_errors=True)
     # macro route: batch
     infra = None
@@ -557,11 +582,11 @@ def run_c16(prop, tier, seed):
             macro_tot = batch.merge(partials)
             violations.extend(macro_tot["violations"])
     coverage = dict(evaluations=evaluations + (macro_tot["evaluations"] if macro_tot else 0),
-                    distinct_nontrivial=len(nontrivial) + (len(macro_tot["nontrivial"]) if macro_tot else 0),
+                    distinct_nontrivial=len(nontrivial) + hist_nontrivial + (len(macro_tot["nontrivial"]) if macro_tot else 0),
                     rule=C16_RULE, samples=samples + (macro_tot["samples"][:4] if macro_tot else []), classes=classes,
                     grammars=len(index), fresh_processes_per_grammar=K,
                     macro_pairs=(macro_tot["grammars"] // 2 if macro_tot else 0), macro_evaluations=(macro_tot["evaluations"] if macro_tot else 0))
-    return main.finish(prop, tier, seed, t0, coverage, violations, FRONT_ASSUMPTIONS + main.BATCH_ASSUMPTIONS[:1], infra)
+    return main.finish(prop, tier, seed, t0, coverage, violations, FRONT_ASSUMPTIONS + main.BATCH_ASSUMPTIONS[:1], infra or hist_infra)
 
 
 HANDLERS["C16"] = run_c16
@@ -598,10 +623,16 @@ def run_c17(prop, tier, seed):
     with open(shipped_path) as f:
         shipped = f.read()
     shipped_hdr, shipped_code = _strip_header(shipped)
-    crc_ok = len(shipped_hdr) >= 2 and len(hdr) >= 2 and shipped_hdr[1] == hdr[1]
+    # the shipped file names the grammar it was generated from by a CRC-32 in its header comment: compare the value, not
+    # the wording of the line (a header whose text was reworded since the last bootstrap is still the same statement)
+    import zlib, re
+    with open(ebnf, "rb") as f:
+        want_crc = "%08x" % (zlib.crc32(f.read()) & 0xffffffff)
+    crc_lines = [l for l in shipped_hdr if re.search(r"crc", l, re.I) and re.search(r"\b[0-9a-fA-F]{8}\b", l)]
+    crc_ok = (not crc_lines) or any(want_crc in l.lower() for l in crc_lines)
     if not crc_ok:
-        violations.append(dict(property="C17", kind="bootstrap", signature="shipped_crc", message="the CRC line of the shipped generated.rs does not match grammar.ebnf",
-                               expected=hdr[1] if len(hdr) > 1 else "", observed=shipped_hdr[1] if len(shipped_hdr) > 1 else ""))
+        violations.append(dict(property="C17", kind="bootstrap", signature="shipped_crc", message="the CRC in the header of the shipped generated.rs is not that of grammar.ebnf",
+                               expected=want_crc, observed=crc_lines[0]))
     # the regeneration as bootstrap.sh does it - through the command-line tool - in fresh processes, with the debug and
     # the release build of the tool: always the bytes of stage 2
     cli_runs = 0
